@@ -160,7 +160,7 @@ def tie(ctx):
         # minor filter tie
         if plus["calls"]:
             ms = plus["major_sols"]
-            reqs.append({"op": "minor_filter", "gene": gv, "profile": views.profile_view(plus["prof"]), "last_cn": views.cn_view(ms[-1].cn_solution),
+            reqs.append({"op": "minor_filter", "gene": gv, "profile": views.profile_view(plus["prof"]), "last_cn": views.cn_view(plus["calls"][0]["major_sol"].cn_solution),
                          "cov": views.cov_view(plus["cov"]),
                          "major_sols": [[[a.major for a in s.solution], [[m.pos, m.op] for m in s.added]] for s in ms]})
             metas.append(("minor", d, plus["calls"][0]["cov"], set(plus["calls"][0]["mutations"])))
